@@ -134,7 +134,9 @@ def _validate_shard(module: str, cfg: str, traces: list, spec_dir: Path, env: di
         p = subprocess.run(cmd, cwd=spec_dir, env=e, capture_output=True, text=True, timeout=timeout)
         out = p.stdout + p.stderr
         if not vf.exists():
-            raise MachineryError(f"trace validation {module}: no verdict file rc={p.returncode}\n{out[-4000:]}")
+            k = out.find("Error:")
+            raise MachineryError(f"trace validation {module}: no verdict file rc={p.returncode}\n"
+                                 + (out[k:k + 2500] if k >= 0 else out[-3000:]))
         ver = json.loads(vf.read_text())
         if len(ver) != len(traces):
             raise MachineryError(f"trace validation {module}: {len(ver)} verdicts for {len(traces)} traces")
